@@ -196,7 +196,7 @@ func TestEngineIndexer(t *testing.T) {
 		}
 		n := 1 + rng.Intn(8)
 		f.heavy = false
-		heavy := rng.Chance(1, 6)
+		heavy := rng.Chance(1, 4)
 		var txs []genTx
 		for i := 0; i < n; i++ {
 			f.heavy = heavy && rng.Chance(2, 3)
